@@ -117,6 +117,7 @@ struct PoolCase
 {
     size_t e = 0, cap = 0;
     std::unique_ptr<exact_buf> zone;
+    std::vector<std::unique_ptr<exact_buf>> old_zones; // zones of earlier init() calls on the same object (kept mapped)
     pool_head head;
     igris::pool ip;
     bool is_ip = false;
@@ -847,6 +848,7 @@ static void run_op(const std::vector<std::string> &w, const std::string &, out &
             pool_init(&MC->head);
             o.result = "ok " + s(pool_avail(&MC->head));
             if (pool_alloc(&MC->head) != nullptr) o.fail("pool without a zone hands out a cell");
+            if (slist_pop_first(&MC->head.free_blocks) != nullptr || !slist_empty(&MC->head.free_blocks)) o.fail("slist_pop_first on an empty list");
             return;
         }
         if (k == "ipool0")
@@ -1142,6 +1144,21 @@ static void run_op(const std::vector<std::string> &w, const std::string &, out &
             o.result = r ? "1" : "0";
             bool ref = i >= 0 && (size_t)i < PC->cap && PC->live.count((size_t)i * PC->e);
             if (r != ref) o.fail("cell_is_allocated(" + s(i) + ") disagrees with the shadow map");
+        }
+        else if (op == "ri")
+        {
+            // init() again on the SAME object with another zone, element size and capacity, whatever its state
+            // (cells handed out, cells on the list): it must become a fresh pool over the new zone
+            PC->old_zones.push_back(std::move(PC->zone));
+            PC->e = strtoul(w[1].c_str(), 0, 10);
+            PC->cap = strtoul(w[2].c_str(), 0, 10);
+            PC->zone.reset(new exact_buf(PC->e * PC->cap));
+            PC->live.clear();
+            PC->names_init();
+            ip.init(PC->zone->p, PC->e * PC->cap, PC->e);
+            o.result = su(ip.size()) + " " + su(ip.room()) + " " + su(ip.avail());
+            if (ip.size() != PC->cap || ip.room() != PC->cap || ip.avail() != PC->cap || ip.element_size() != PC->e) o.fail("re-initialised pool does not report its new capacity / element size");
+            o.tag("re-init");
         }
         else if (op == "sz")
         {
@@ -2028,6 +2045,76 @@ static void gen_pool_case(rng &r, bool ip, size_t e, size_t cap)
     probes();
 }
 
+// one igris::pool object initialised again and again with other zones / element sizes / capacities, each time in
+// a different state (exhausted, partly handed out, everything returned)
+static void gen_ipool_reinit(rng &r)
+{
+    size_t e = 8 * (size_t)r.range(1, 8), cap = (size_t)r.range(1, 20);
+    printf("reset ipool %zu %zu\n", e, cap);
+    for (int round = 0; round < 4; round++)
+    {
+        std::vector<size_t> freel, live;
+        for (size_t i = 0; i < cap; i++) freel.push_back(i * e);
+        size_t want = round == 0 ? cap + 1 : (size_t)r.below(cap + 2);
+        for (size_t i = 0; i < want; i++)
+        {
+            puts("g");
+            if (!freel.empty())
+            {
+                live.push_back(freel.back());
+                freel.pop_back();
+            }
+        }
+        for (size_t i = 0, n = r.below(live.size() + 1); i < n; i++)
+        {
+            size_t j = (size_t)r.below(live.size());
+            printf("p %zu\n", live[j]);
+            freel.push_back(live[j]);
+            live.erase(live.begin() + j);
+        }
+        puts("it");
+        e = 8 * (size_t)r.range(1, 8);
+        cap = (size_t)r.range(1, 20);
+        printf("ri %zu %zu\nsz\n", e, cap);
+    }
+    for (size_t i = 0; i < cap + 1; i++) puts("g");
+    puts("it");
+}
+
+// realloc in every neighbour configuration: blocks A B C [D]; B is reallocated with the chunk below (A) and / or
+// above (C) free, with C a guard, or with B the topmost chunk; growth by less than / exactly / more than what the
+// free neighbour above offers, and shrinks; then everything is released in a random order
+static void gen_heap_neighbours(rng &r, int ncases)
+{
+    static const std::vector<size_t> szs = {0, 64, 128, 192, 256};
+    for (int c = 0; c < ncases; c++)
+    {
+        size_t lim = c % 11 == 10 ? (size_t)r.range(900, 3000) : 0;
+        printf("reset heap %zu\n", lim);
+        HGen g(r, 90);
+        int cfgi = c % 8; // bit 0: A free, bit 1: C free, bit 2: no guard D (C or B ends at the break)
+        size_t a = r.pick(szs), b = r.pick(szs), cc = r.pick(szs);
+        if (r.chance(50)) g.m(r.pick(szs)); // something below A
+        int A = g.next_slot; g.m(a);
+        int B = g.next_slot; g.m(b);
+        int C = -1;
+        bool top = (cfgi & 4) && r.chance(50); // B itself is the topmost chunk
+        if (!top) { C = g.next_slot; g.m(cc); }
+        if (!(cfgi & 4)) g.m(r.pick(szs)); // guard D
+        auto idx = [&](int slot) -> size_t { for (size_t i = 0; i < g.live.size(); i++) if (g.live[i] == slot) return i; return 0; };
+        if (cfgi & 1) g.f_at(idx(A));
+        if ((cfgi & 2) && C >= 0) g.f_at(idx(C));
+        size_t cur = b < 8 ? 8 : b, room = (cfgi & 2) && C >= 0 ? (cc < 8 ? 8 : cc) + 8 : 0;
+        for (int i = 0, n = (int)r.range(1, 4); i < n; i++)
+        {
+            unsigned k = (unsigned)r.below(6);
+            size_t want = k == 0 ? cur + room : k == 1 ? cur + room + 1 : k == 2 ? (cur + room >= 8 ? cur + room - 8 : 0) : k == 3 ? cur / 2 : k == 4 ? cur + 64 : (size_t)r.below(400);
+            g.rr(idx(B), want);
+        }
+        g.free_all((int)r.below(3));
+    }
+}
+
 // one pool_head, 1..4 zones of different sizes engaged at arbitrary points of the history
 // (shape 0: random; 1: all zones back to back, then exhaust; 2: exhaust, engage onto the drained pool,
 //  free some, engage onto a non-empty list; 3: alloc/free a little, then engage), interleaved with alloc/free.
@@ -2246,6 +2333,7 @@ static void gen(rng &r, const std::string &tier)
         for (size_t size : {8, 16, 28})
             if (th || (e + size + g_seed) % 3 == 0) printf("reset poolx %zu %zu\n", e, size);
     puts("reset poolx 16 40\nreset poolx 24 100\nreset poolx 8 64\nreset poolx 16 48\nreset poolx 9 27\nreset poolx 8 0");
+    for (int i = 0; i < (th ? 40 : 6); i++) gen_ipool_reinit(r);
     // a default-constructed igris::pool (no zone): every query must answer "empty"
     puts("reset ipool0\ng\nsz\nca 0\nit\np null\ng\nca -1\nsz");
     for (auto &k : sop_kinds)
@@ -2283,6 +2371,7 @@ static void gen(rng &r, const std::string &tier)
     gen_heap_targeted(r, th ? 3000 : 360);
     gen_heap_huge(r, th ? 200 : 40);
     gen_heap_brim(r, th ? 360 : 72);
+    gen_heap_neighbours(r, th ? 1600 : 240);
     gen_heap_addrwrap(r, th ? 300 : 60);
     gen_heap_maxalloc(r, th ? 400 : 60);
     gen_heap_big(r, th ? 44 : 11);
